@@ -16,6 +16,15 @@ CALLS2 = ["min", "max", "divmod", "round", "range", "int", "print"]
 METHODS = [("''.join({a})", 1), ("'a'.upper()", 0), ("'a b'.split()", 0), ("'a'.startswith({a})", 1),
            ("'{{}}'.format({a})", 1), ("(1).bit_length()", 0), ("'a'.count({a})", 1)]
 
+# builtin calls with keyword arguments and a few more argument shapes (added after a sub-agent noted that keyword
+# arguments are ignored by the evaluator)
+KEYWORD_CALLS = ["int('10', base=2)", "int('10', 2)", "sorted([2, 1], reverse=True)", "sorted([2, 1], reverse=False)", "max([1, -2], key=abs)",
+                 "min([], default=0)", "max((), default=None)", "round(1.55, ndigits=1)", "sum([1], start=2)", "sum([1], 2)",
+                 "str(b'a', encoding='utf-8')", "str(b'a', 'utf-8')", "print(1, end='')", "dict(a=1)", "dict([(1, 2)], b=3)",
+                 "list(range(3))", "tuple('ab')", "len(dict(a=1))", "bool(x=1)", "list(enumerate([1], start=1))", "list(zip([1], [2], strict=True))",
+                 "'a b'.split(sep=' ')", "'a'.center(3, '*')", "'{a}'.format(a=1)", "'a,b'.split(',', maxsplit=0)", "divmod(7, -2)",
+                 "pow(2, 3, mod=5)", "pow(2, -1)", "abs(-0.0)", "float('nan') == float('nan')", "complex(1, imag=2)"]
+
 NONSINGLETON_LITERAL = {"''", "'a'", "()", "(0,)", "[]", "[0]", "{}", "{1}", "1.5", "2", "-1", "0", "1"}
 
 
@@ -67,6 +76,8 @@ def depth1(atoms=None, chains=True):
         else:
             for a in atoms:
                 out.append(tmpl.format(a=a))
+    if chains:
+        out += KEYWORD_CALLS
     seen, res = set(), []
     for e in out:
         if e not in seen:
